@@ -316,3 +316,17 @@ v('c10-early-without-flag', ['C10'], MA, "    if allow_empty && pattern.nullable
 v('c10-outer-skip', ['C10'], MA, "            j += 1;\n        }\n        i += 1;", "            j += 1;\n        }\n        i += 2;", 'C10.R1')
 v('c10-all-empty-allowed', ['C10'], SREF, "find_match(r, s1, i, false)", "find_match(r, s1, i, true)", 'C10.R2/str_replace_re_all')
 v('c10-splice', ['C10'], SREF, "            x.extend_from_slice(&s1[..i]);\n            x.extend_from_slice(s2.as_ref());\n            x.extend_from_slice(&s1[j..]);", "            x.extend_from_slice(&s1[..i]);\n            x.extend_from_slice(s2.as_ref());\n            x.extend_from_slice(&s1[i..]);", 'C10.R3/str_replace_re')
+
+# ---- C07
+STF = 'src/store.rs'
+v('c07-complement-plus', ['C07'], RX, "        self.id_to_re(e.id ^ 1)", "        self.id_to_re(e.id + 1)", 'C07.R3')
+v('c07-push-order', ['C07'], RX, "                    self.id2re.push(x);\n                    self.id2re.push(y);", "                    self.id2re.push(y);\n                    self.id2re.push(x);", 'C07.R4')
+v('c07-no-dedup', ['C07'], RX, "        v.sort();\n        v.dedup();\n        if contains(v, top) {", "        v.sort();\n        if contains(v, top) {", 'C07.R5')
+v('c07-counter-twice', ['C07'], STF, "                self.counter += 1;\n                let p = Box::leak(Box::new(new_obj));", "                self.counter += 2;\n                let p = Box::leak(Box::new(new_obj));", 'C07.R1/Store::make')
+v('c07-eq-structural-flag', ['C07'], RX, "    fn eq(&self, other: &Self) -> bool {\n        self.id == other.id\n    }", "    fn eq(&self, other: &Self) -> bool {\n        self.id == other.id || (self.nullable && other.nullable && self.singleton)\n    }", 'C07.R2/RE::eq')
+v('c07-hash-nullable', ['C07'], RX, "        self.id.hash(state)", "        self.nullable.hash(state)", 'C07.R2/RE::hash')
+v('c07-occupied-realloc', ['C07'], STF, "            Entry::Occupied(o) => o.get(),", "            Entry::Occupied(o) => { self.counter += 1; o.get() }", 'C07.R1/Store::make')
+v('c07-make-complement-arm', ['C07'], RX, "            BaseRegLan::Complement(x) => self.id_to_re(x.id + 1),", "            BaseRegLan::Complement(x) => self.id_to_re(x.id ^ 1),", 'C07.R4')
+v('c07-new-order', ['C07'], RX, "            id2re: vec![sigma, not_sigma, empty, sigma_star, epsilon, sigma_plus],", "            id2re: vec![sigma, not_sigma, empty, epsilon, sigma_star, sigma_plus],", 'C07.R4/ReManager::new')
+v('c07-bypass-store', ['C07'], RX, "    pub fn char_set(&mut self, set: CharSet) -> RegLan {\n        self.make(BaseRegLan::Range(set))", "    pub fn char_set(&mut self, set: CharSet) -> RegLan {\n        self.store.make(BaseRegLan::Range(set))", 'C07.R1')
+v('c07-sort-after-read', ['C07'], RX, "        v.sort();\n        v.dedup();\n        if contains(v, top) {", "        if contains(v, top) {\n            v.sort();\n            v.dedup();", 'C07.R5')
